@@ -36,6 +36,10 @@ def fixed_cases():
     out.append((d, s, [[("read", 4)], [("readline", None)], []], False))
     out.append((lp.make_spec(proxy_protocol=True), b"PROXY TCP4 192.168.0.1 192.168.0.11 56324 443\r\nGET / HTTP/1.1\r\nHost: x\r\n\r\nGET /2 HTTP/1.1\r\n\r\n", [[], []], False))
     out.append((lp.make_spec(limit_request_line=10), b"GET /aaaaaaaaaaaaaaaaaaaaaaaaaaaa HTTP/1.1\r\n\r\n", [[]], False))
+    # an empty line where a request line is expected: before the first request, after a body
+    out.append((d, b"\r\nGET /only HTTP/1.1\r\nHost: example\r\n\r\n", [[]], False))
+    out.append((d, b"POST /form HTTP/1.1\r\nHost: example\r\nContent-Length: 7\r\n\r\na=1&b=2\r\nGET /next HTTP/1.1\r\nHost: example\r\n\r\n", [[], []], False))
+    out.append((d, b"POST /form HTTP/1.1\r\nTransfer-Encoding: chunked\r\n\r\n3\r\nabc\r\n0\r\n\r\n\r\n\r\nGET /next HTTP/1.1\r\n\r\n", [[("read", None)], []], False))
     return out
 
 
